@@ -110,7 +110,15 @@ func (c10) Run(c *core.Case, env *core.Env) {
 		}
 		st.handlers = append(st.handlers, h)
 	}
-	st.handlers = append(st.handlers, &c10handler{kind: "all", small: true, queue: make(chan *net.Message, c.P("small", 1))})
+	// a handler with a deliberately small queue, at a drawn position of the
+	// table (the handlers behind it must not suffer from its overflow), and
+	// sometimes a second one
+	small := &c10handler{kind: "all", small: true, queue: make(chan *net.Message, c.P("small", 1))}
+	pos := hr.IntN(len(st.handlers) + 1)
+	st.handlers = append(st.handlers[:pos:pos], append([]*c10handler{small}, st.handlers[pos:]...)...)
+	if hr.IntN(3) == 0 {
+		st.handlers = append(st.handlers, &c10handler{kind: "parity", arg: uint32(hr.IntN(2)), small: true, queue: make(chan *net.Message, 1)})
+	}
 	net.EndPointFinalizer(net.ConnStream(b), func(e net.EndPoint) {
 		for _, h := range st.handlers {
 			h := h
